@@ -396,6 +396,30 @@ class Check(common.Check):
                 ops.append(['fvset', rng.randrange(nf), rng.choice(VALS)])
             else:
                 ops.append(['tick'])
+        if nr >= 2 and rng.random() < 0.22:
+            # an enclosing (Running) routine is operated on from the body of a routine it is running
+            a, b = rng.sample(range(nr), 2)
+            rts[a]['script'].insert(rng.randrange(len(rts[a]['script']) + 1),
+                                    ['nest', b, rng.choice('ccp' + ('e' if rts[a]['gen'] else '')), 'N'])
+            inner = [['rop', a, rng.choice(['stop', 'stop', 'pause', 'reset', 'play', 'resume'])]]
+            if rng.random() < 0.4:
+                inner.append(['nest', a, 'c', rng.choice(VALS)])
+            if rng.random() < 0.4:
+                inner.append(['rop', a, rng.choice(['stop', 'pause', 'reset'])])
+            k = rng.randrange(min(2, len(rts[b]['script'])) + 1)
+            rts[b]['script'][k:k] = inner
+            ops = [['next', a, 'N']] * rng.randint(1, 3) + ops[:rng.randint(0, 12)] + [['next', a, 'N']]
+        if (nc or nf) and rng.random() < 0.15:
+            # timed scenario: numeric yield woken by the scheduler, pause + resume before the next
+            # wake-up is due, then a wait on a condition / flow variable, signalled later
+            r = rng.randrange(nr)
+            w = ['wait', rng.randrange(nc)] if nc and (not nf or rng.random() < 0.6) else ['fvget', rng.randrange(nf)]
+            rts[r] = {'gen': True, 'inval': rts[r]['inval'],
+                      'script': [['y', rng.choice(['n1', 'n2', 'n3'])], w, ['here'], ['y', 'n1']]}
+            rel = ([['test', w[1], 'T'], ['sig', w[1]]] if w[0] == 'wait' else [['fvset', w[1], 'n2']])
+            timed = ([['rop', r, 'play'], ['tick'], ['rop', r, 'pause'], ['rop', r, 'resume'], ['tick'], ['tick']]
+                     + rel + [['tick'], ['tick']])
+            ops = [list(x) for x in timed] + ops[:rng.randint(0, 8)]
         if rng.random() < 0.12:
             # life-cycle scenario: a routine ends with AlwaysYield, is reset and ends differently
             r = rng.randrange(nr)
